@@ -313,10 +313,69 @@ def rule_r3(chk):
             chk.ok("C14-R3", f"series._hp._ConstrainedHodrickPrescottFilter.{entry}[pure]", f"no write to self state in {seen}", m.loc(meths[entry]))
 
 
+def rule_r4(chk):
+    from .. import fin
+    chk.rule("C14-R4", "the HP system is the first-order condition of the documented problem: finite evaluation (checker's exact matrix model, "
+             "T = 5 and 6, lambda = 7) of the construction methods gives F = lambda * K'K with K the second-difference matrix "
+             "(rows (1, -2, 1)); level constraints at periods j border F with unit rows e_j, their transposes as columns and a zero "
+             "corner; change constraints border it with e_j - e_(j-1); the number of extra rows is counted exactly", floor=6)
+    m = chk.repo.mod(HMOD)
+    meths = m.methods("_ConstrainedHodrickPrescottFilter")
+    for q in ("_create_plain_filter_matrix", "_add_level_constraints", "_add_change_constraints"):
+        if q not in meths:
+            raise AnalysisError(f"anchor vanished: _ConstrainedHodrickPrescottFilter.{q}")
+        chk.saw(m, f"_ConstrainedHodrickPrescottFilter.{q}")
+    M = fin.FinMat
+    for T in (5, 6):
+        lam = 7
+        try:
+            base = {"self": "SELF", "self._num_periods": T, "self._smooth": lam, "self._num_extra_rows": 0, "float": float, "int": int}
+            out = {}
+            fin.run_function(meths["_create_plain_filter_matrix"], {}, funcs=dict(fin.MATRIX_FUNCS), env=base, final_env=out, methods=meths)
+            F = out.get("self._F")
+            K = M([[1 if j == i or j == i + 2 else -2 if j == i + 1 else 0 for j in range(T)] for i in range(T - 2)])
+            want = lam * (K.T @ K)
+            chk.ob("C14-R4", f"series._hp._ConstrainedHodrickPrescottFilter._create_plain_filter_matrix[T={T}]", isinstance(F, M) and F == want,
+                   "F = lambda * K'K, K = second differences" if isinstance(F, M) and F == want else f"F = {F} (want {want})", m.loc(meths["_create_plain_filter_matrix"]), sure=True)
+            if not isinstance(F, M):
+                continue
+            # level constraints at two periods
+            where = [1, T - 2]
+            env = dict(base); env["self._F"] = M(F.rows)
+            out2 = {}
+            fin.run_function(meths["_add_level_constraints"], {params(meths["_add_level_constraints"])[1]: where}, funcs=dict(fin.MATRIX_FUNCS), env=env, final_env=out2, methods=meths)
+            F2 = out2["self._F"]
+            C = M([[1 if j == w else 0 for j in range(T)] for w in where])
+            Z = M.zeros((len(where), len(where)))
+            want2 = fin._vstack([fin._hstack([F, C.T]), fin._hstack([C, Z])])
+            ok = F2 == want2 and out2.get("self._num_extra_rows") == len(where)
+            chk.ob("C14-R4", f"series._hp._ConstrainedHodrickPrescottFilter._add_level_constraints[T={T}]", ok,
+                   f"levels fixed at periods {where}: F is bordered by the unit rows of those periods, their transposes and a zero corner; {len(where)} extra rows counted"
+                   if ok else f"bordered matrix rows {F2.rows[T:]} / extra rows counted {out2.get('self._num_extra_rows')} (want rows {C.rows} and {len(where)})",
+                   m.loc(meths["_add_level_constraints"]), sure=True)
+            # change constraints on top of the level constraints
+            cw = [2, T - 1]
+            env = dict(base); env["self._F"] = M(F2.rows); env["self._num_extra_rows"] = len(where)
+            out3 = {}
+            fin.run_function(meths["_add_change_constraints"], {params(meths["_add_change_constraints"])[1]: cw}, funcs=dict(fin.MATRIX_FUNCS), env=env, final_env=out3, methods=meths)
+            F3 = out3["self._F"]
+            n2 = T + len(where)
+            D = M([[1 if j == w else -1 if j == w - 1 else 0 for j in range(n2)] for w in cw])
+            want3 = fin._vstack([fin._hstack([F2, D.T]), fin._hstack([D, M.zeros((len(cw), len(cw)))])])
+            ok = F3 == want3 and out3.get("self._num_extra_rows") == len(where) + len(cw)
+            chk.ob("C14-R4", f"series._hp._ConstrainedHodrickPrescottFilter._add_change_constraints[T={T}]", ok,
+                   f"changes fixed at periods {cw}: F is bordered by e_j - e_(j-1), symmetric, zero corner; extra rows counted {out3.get('self._num_extra_rows')}"
+                   if ok else f"bordered rows {F3.rows[n2:]} / extra rows {out3.get('self._num_extra_rows')} (want {D.rows} and {len(where) + len(cw)})",
+                   m.loc(meths["_add_change_constraints"]), sure=True)
+        except (fin.NotFinite, KeyError, TypeError, IndexError) as ex:
+            chk.undecided("C14-R4", f"series._hp._ConstrainedHodrickPrescottFilter[system matrix T={T}]", f"construction not evaluable: {type(ex).__name__}: {ex}", m.rel)
+
+
 def run(chk):
     chk.guard(rule_r1, chk)
     chk.guard(rule_r2, chk)
     chk.guard(rule_r3, chk)
+    chk.guard(rule_r4, chk)
     from .. import unused as _unused
     chk.guard(_unused.apply, chk, "C14-R91")
     from .. import args as _args
